@@ -7,95 +7,101 @@ import RotoV.Lemmas.LowerS
 namespace RotoV.LowerS
 open RotoV.TraceSpec
 
-def SimE (fns : List FnDef) (n : Nat) : Prop :=
+/-- `P` holds the parameters and the structured MIR of every function of `fns`. -/
+def ProgOk (fns : List FnDef) (P : Prog) : Prop :=
+  ∀ (f : Nat) (fd : FnDef), fns[f]? = some fd → ∃ code, lowerFn fd = some code ∧ P[f]? = some (fd.params, code)
+
+def SimE (fns : List FnDef) (P : Prog) (n : Nat) : Prop :=
   ∀ (e : Expr) (env : Env) (c : Nat) (code : Code) (value : Value) (c' : Nat) (σ : Store),
     lowerE e c = some (code, value, c') → Agree env σ →
     (∀ t env' v, evalExpr fns n env e = ⟨t, .ok (env', v)⟩ →
-      ∃ σ1 t1 t2, ExecC σ code t1 (.normal σ1) ∧ evalValue σ1 value = some (t2, v) ∧ t = t1 ++ t2
+      ∃ σ1 t1 t2, ExecC P σ code t1 (.normal σ1) ∧ EvalV P σ1 value t2 v ∧ t = t1 ++ t2
         ∧ Agree env' σ1 ∧ Frame c σ σ1) ∧
-    (∀ t v, evalExpr fns n env e = ⟨t, .ret v⟩ → ExecC σ code t (.returned v))
+    (∀ t v, evalExpr fns n env e = ⟨t, .ret v⟩ → ExecC P σ code t (.returned v))
 
-def SimArgs (fns : List FnDef) (n : Nat) : Prop :=
+def SimArgs (fns : List FnDef) (P : Prog) (n : Nat) : Prop :=
   ∀ (es : Exprs) (env : Env) (c : Nat) (code : Code) (tmps : List Var) (c' : Nat) (σ : Store),
     lowerArgs es c = some (code, tmps, c') → Agree env σ →
     (∀ t env' vs, evalArgs fns n env es = ⟨t, .ok (env', vs)⟩ →
-      ∃ σ1, ExecC σ code t (.normal σ1) ∧ tmps.map σ1 = vs ∧ Agree env' σ1 ∧ Frame c σ σ1) ∧
-    (∀ t v, evalArgs fns n env es = ⟨t, .ret v⟩ → ExecC σ code t (.returned v))
+      ∃ σ1, ExecC P σ code t (.normal σ1) ∧ tmps.map σ1 = vs ∧ Agree env' σ1 ∧ Frame c σ σ1) ∧
+    (∀ t v, evalArgs fns n env es = ⟨t, .ret v⟩ → ExecC P σ code t (.returned v))
 
 /-- the fields of a record literal: `to` (a temporary below the counter) holds the
     fields stored so far -/
-def SimFields (fns : List FnDef) (n : Nat) : Prop :=
+def SimFields (fns : List FnDef) (P : Prog) (n : Nat) : Prop :=
   ∀ (es : Exprs) (env : Env) (k i c : Nat) (code : Code) (c' : Nat) (σ : Store) (pre : List Int),
     lowerFields es (.t k) i c = some (code, c') → Agree env σ → k < c → σ (.t k) = .recd pre → pre.length = i →
     (∀ t env' fs, evalInts fns n env es = ⟨t, .ok (env', fs)⟩ →
-      ∃ σ1, ExecC σ code t (.normal σ1) ∧ σ1 (.t k) = .recd (pre ++ fs) ∧ Agree env' σ1 ∧ Frame k σ σ1) ∧
-    (∀ t v, evalInts fns n env es = ⟨t, .ret v⟩ → ExecC σ code t (.returned v))
+      ∃ σ1, ExecC P σ code t (.normal σ1) ∧ σ1 (.t k) = .recd (pre ++ fs) ∧ Agree env' σ1 ∧ Frame k σ σ1) ∧
+    (∀ t v, evalInts fns n env es = ⟨t, .ret v⟩ → ExecC P σ code t (.returned v))
 
 /-- the arguments of an enum constructor: every one materialised in a temporary -/
-def SimCtor (fns : List FnDef) (n : Nat) : Prop :=
+def SimCtor (fns : List FnDef) (P : Prog) (n : Nat) : Prop :=
   ∀ (es : Exprs) (env : Env) (c : Nat) (code : Code) (xs : List Var) (c' : Nat) (σ : Store),
     lowerCtorArgs es c = some (code, xs, c') → Agree env σ →
     (∀ t env' fs, evalInts fns n env es = ⟨t, .ok (env', fs)⟩ →
-      ∃ σ1, ExecC σ code t (.normal σ1) ∧ xs.map σ1 = fs.map Val.int ∧ Agree env' σ1 ∧ Frame c σ σ1) ∧
-    (∀ t v, evalInts fns n env es = ⟨t, .ret v⟩ → ExecC σ code t (.returned v))
+      ∃ σ1, ExecC P σ code t (.normal σ1) ∧ xs.map σ1 = fs.map Val.int ∧ Agree env' σ1 ∧ Frame c σ σ1) ∧
+    (∀ t v, evalInts fns n env es = ⟨t, .ret v⟩ → ExecC P σ code t (.returned v))
 
 /-- a guard chain against the arms it was built from -/
-def SimChain (fns : List FnDef) (n : Nat) : Prop :=
+def SimChain (fns : List FnDef) (P : Prog) (n : Nat) : Prop :=
   ∀ (arms : Arms) (env : Env) (sel : Sel) (ke tb idx c : Nat) (steps : List GStep) (c' : Nat) (σ : Store) (v : Val)
     (ko cA : Nat) (codes : List Code) (cA' c0 : Nat),
     lowerChain arms sel (.t ke) tb idx c = some (steps, c') → lowerArms arms (.t ko) cA = some (codes, cA') →
     Agree env σ → σ (.t ke) = v → (discOf v).isSome → ke < c0 → c0 ≤ c → c0 ≤ cA → c0 ≤ ko → ko < cA →
     (∀ p, p ∈ patsOf arms → selects sel p = patMatches v p) →
     (∀ t env' r, evalArms fns n env v arms = ⟨t, .ok (env', r)⟩ →
-      ∃ a σ1 t1 code σ2 t2, ExecG σ steps t1 (.selected (idx + a) σ1) ∧ codes[a]? = some code ∧
-        ExecC σ1 code t2 (.normal σ2) ∧ σ2 (.t ko) = r ∧ t = t1 ++ t2 ∧ Agree env' σ2 ∧ Frame c0 σ σ2) ∧
+      ∃ a σ1 t1 code σ2 t2, ExecG P σ steps t1 (.selected (idx + a) σ1) ∧ codes[a]? = some code ∧
+        ExecC P σ1 code t2 (.normal σ2) ∧ σ2 (.t ko) = r ∧ t = t1 ++ t2 ∧ Agree env' σ2 ∧ Frame c0 σ σ2) ∧
     (∀ t w, evalArms fns n env v arms = ⟨t, .ret w⟩ →
-      ExecG σ steps t (.returned w) ∨
-      ∃ a σ1 t1 code t2, ExecG σ steps t1 (.selected (idx + a) σ1) ∧ codes[a]? = some code ∧
-        ExecC σ1 code t2 (.returned w) ∧ t = t1 ++ t2)
+      ExecG P σ steps t (.returned w) ∨
+      ∃ a σ1 t1 code t2, ExecG P σ steps t1 (.selected (idx + a) σ1) ∧ codes[a]? = some code ∧
+        ExecC P σ1 code t2 (.returned w) ∧ t = t1 ++ t2)
 
-def SimSeq (fns : List FnDef) (n : Nat) : Prop :=
+def SimSeq (fns : List FnDef) (P : Prog) (n : Nat) : Prop :=
   ∀ (b : Block) (env : Env) (c : Nat) (code : Code) (x : Var) (c' : Nat) (σ : Store),
     lowerBlock b c = some (code, x, c') → Agree env σ →
     (∀ t env' v, evalSeq fns n env b = ⟨t, .ok (env', v)⟩ →
-      ∃ σ1, ExecC σ code t (.normal σ1) ∧ σ1 x = v ∧ Agree env' σ1 ∧ Frame c σ σ1) ∧
-    (∀ t v, evalSeq fns n env b = ⟨t, .ret v⟩ → ExecC σ code t (.returned v))
+      ∃ σ1, ExecC P σ code t (.normal σ1) ∧ σ1 x = v ∧ Agree env' σ1 ∧ Frame c σ σ1) ∧
+    (∀ t v, evalSeq fns n env b = ⟨t, .ret v⟩ → ExecC P σ code t (.returned v))
 
-def SimBlock (fns : List FnDef) (n : Nat) : Prop :=
+def SimBlock (fns : List FnDef) (P : Prog) (n : Nat) : Prop :=
   ∀ (b : Block) (env : Env) (c : Nat) (code : Code) (x : Var) (c' : Nat) (σ : Store),
     lowerBlock b c = some (code, x, c') → Agree env σ →
     (∀ t env' v, evalBlock fns n env b = ⟨t, .ok (env', v)⟩ →
-      ∃ σ1, ExecC σ code t (.normal σ1) ∧ σ1 x = v ∧ Agree env' σ1 ∧ Frame c σ σ1) ∧
-    (∀ t v, evalBlock fns n env b = ⟨t, .ret v⟩ → ExecC σ code t (.returned v))
+      ∃ σ1, ExecC P σ code t (.normal σ1) ∧ σ1 x = v ∧ Agree env' σ1 ∧ Frame c σ σ1) ∧
+    (∀ t v, evalBlock fns n env b = ⟨t, .ret v⟩ → ExecC P σ code t (.returned v))
 
-def SimWhile (fns : List FnDef) (n : Nat) : Prop :=
+def SimWhile (fns : List FnDef) (P : Prog) (n : Nat) : Prop :=
   ∀ (cnd : Expr) (b : Block) (env : Env) (c : Nat) (cc : Code) (vc : Value) (c1 : Nat)
     (cb : Code) (xb : Var) (c2 : Nat) (σ : Store),
     lowerE cnd (c + 1) = some (cc, vc, c1) → lowerBlock b c1 = some (cb, xb, c2) → Agree env σ →
     (∀ t env' v, evalWhile fns n env cnd b = ⟨t, .ok (env', v)⟩ →
-      ∃ σ1, ExecS σ (.whl (cc ++ [.assign (.t c) vc]) (.t c) cb) t (.normal σ1) ∧ v = .unit
+      ∃ σ1, ExecS P σ (.whl (cc ++ [.assign (.t c) vc]) (.t c) cb) t (.normal σ1) ∧ v = .unit
         ∧ Agree env' σ1 ∧ Frame c σ σ1) ∧
     (∀ t v, evalWhile fns n env cnd b = ⟨t, .ret v⟩ →
-      ExecS σ (.whl (cc ++ [.assign (.t c) vc]) (.t c) cb) t (.returned v))
+      ExecS P σ (.whl (cc ++ [.assign (.t c) vc]) (.t c) cb) t (.returned v))
 
 /-- The value of a lowered expression, stored in any variable `y`. -/
-theorem SimE.store {fns n} (hE : SimE fns n) {e env c code value c1 σ t env' v}
+theorem SimE.store {fns P n} (hE : SimE fns P n) {e env c code value c1 σ t env' v}
     (hl : lowerE e c = some (code, value, c1)) (ha : Agree env σ)
     (he : evalExpr fns n env e = ⟨t, .ok (env', v)⟩) (y : Var) :
-    ∃ σ1, ExecC σ (code ++ [.assign y value]) t (.normal (σ1.set y v)) ∧ Agree env' σ1 ∧ Frame c σ σ1 := by
+    ∃ σ1, ExecC P σ (code ++ [.assign y value]) t (.normal (σ1.set y v)) ∧ Agree env' σ1 ∧ Frame c σ σ1 := by
   obtain ⟨σ1, t1, t2, hx, hv, rfl, ha1, hf1⟩ := (hE e env c code value c1 σ hl ha).1 t env' v he
   exact ⟨σ1, ExecC.append hx (ExecC.assign1 hv), ha1, hf1⟩
 
 /-- … materialised by `assign_to_var`. -/
-theorem SimE.mat {fns n} (hE : SimE fns n) {e env c code value c1 σ t env' v}
+theorem SimE.mat {fns P n} (hE : SimE fns P n) {e env c code value c1 σ t env' v}
     (hl : lowerE e c = some (code, value, c1)) (ha : Agree env σ)
     (he : evalExpr fns n env e = ⟨t, .ok (env', v)⟩) :
-    ∃ σ2, ExecC σ (code ++ atvCode value c1) t (.normal σ2) ∧ σ2 (atvVar value c1) = v
+    ∃ σ2, ExecC P σ (code ++ atvCode value c1) t (.normal σ2) ∧ σ2 (atvVar value c1) = v
       ∧ Agree env' σ2 ∧ Frame c σ σ2 := by
   have hm := (lowerE_mono e c code value c1 hl).1
   obtain ⟨σ1, t1, t2, hx, hv, rfl, ha1, hf1⟩ := (hE e env c code value c1 σ hl ha).1 t env' v he
   by_cases hmv : ∃ x, value = .move x
   · obtain ⟨x, rfl⟩ := hmv
+    cases hv with
+    | pure hv =>
     simp [evalValue] at hv
     obtain ⟨rfl, rfl⟩ := hv
     exact ⟨σ1, by simpa [atvCode] using hx, by simp [atvVar], ha1, hf1⟩
@@ -107,16 +113,16 @@ theorem SimE.mat {fns n} (hE : SimE fns n) {e env c code value c1 σ t env' v}
     exact ⟨σ1.set (.t c1) v, ExecC.append hx (ExecC.assign1 hv), by simp, ha1.set_tmp _ _,
       hf1.trans (Frame.set_tmp _ _ (Nat.le_refl _)) hm⟩
 
-theorem SimE.ret {fns n} (hE : SimE fns n) {e env c code value c1 σ t v}
+theorem SimE.ret {fns P n} (hE : SimE fns P n) {e env c code value c1 σ t v}
     (hl : lowerE e c = some (code, value, c1)) (ha : Agree env σ)
-    (he : evalExpr fns n env e = ⟨t, .ret v⟩) : ExecC σ code t (.returned v) :=
+    (he : evalExpr fns n env e = ⟨t, .ret v⟩) : ExecC P σ code t (.returned v) :=
   (hE e env c code value c1 σ hl ha).2 t v he
 
 theorem R.ok_eq {α} (a : α) : (R.ok a : R α) = ⟨[], .ok a⟩ := rfl
 
-theorem simE_step {fns n} (hE : SimE fns n) (hA : SimArgs fns n) (hF : SimFields fns n) (hB : SimBlock fns n)
-    (hW : SimWhile fns n) (hC : SimChain fns n) (hK : SimCtor fns n) :
-    SimE fns (n + 1) := by
+theorem simE_step {fns P n} (hE : SimE fns P n) (hA : SimArgs fns P n) (hF : SimFields fns P n) (hB : SimBlock fns P n)
+    (hW : SimWhile fns P n) (hC : SimChain fns P n) (hK : SimCtor fns P n) (hP : ProgOk fns P) :
+    SimE fns P (n + 1) := by
   intro e env c code value c' σ hl ha
   cases e with
   | lit v =>
@@ -125,7 +131,7 @@ theorem simE_step {fns n} (hE : SimE fns n) (hA : SimArgs fns n) (hF : SimFields
     · intro t env' w h
       simp [evalExpr, R.ok] at h
       obtain ⟨rfl, rfl, rfl⟩ := h
-      exact ⟨σ, [], [], .nil, rfl, rfl, ha, Frame.refl _ _⟩
+      exact ⟨σ, [], [], .nil, .pure rfl, rfl, ha, Frame.refl _ _⟩
     · intro t w h; simp [evalExpr, R.ok] at h
   | var x =>
     simp [lowerE] at hl; obtain ⟨rfl, rfl, rfl⟩ := hl
@@ -137,7 +143,7 @@ theorem simE_step {fns n} (hE : SimE fns n) (hA : SimArgs fns n) (hF : SimFields
       | some u =>
         simp [hx, R.ok] at h
         obtain ⟨rfl, rfl, rfl⟩ := h
-        exact ⟨σ, [], [], .nil, by simp [evalValue, ha x u hx], rfl, ha, Frame.refl _ _⟩
+        exact ⟨σ, [], [], .nil, (EvalV.pure (by simp [evalValue, ha x u hx])), rfl, ha, Frame.refl _ _⟩
     · intro t w h
       simp only [evalExpr] at h
       cases hx : lookup env x <;> simp [hx, R.stuck, R.ok] at h
@@ -154,7 +160,7 @@ theorem simE_step {fns n} (hE : SimE fns n) (hA : SimArgs fns n) (hF : SimFields
       | some u =>
         simp [hh, bind_eq, R.bind, R.emit, pure_eq, R.ok] at h2
         obtain ⟨rfl, rfl, rfl⟩ := h2
-        exact ⟨σ1, t1, [⟨f, vs⟩], hx, by simp [evalValue, hmap, hh], rfl, ha1, hf1⟩
+        exact ⟨σ1, t1, [⟨f, vs⟩], hx, (EvalV.pure (by simp [evalValue, hmap, hh])), rfl, ha1, hf1⟩
     · intro t w h
       simp only [evalExpr, bind_eq, bind_ret_iff] at h
       rcases h with h | ⟨t1, ⟨env1, vs⟩, t2, hargs, h2, rfl⟩
@@ -183,7 +189,7 @@ theorem simE_step {fns n} (hE : SimE fns n) (hA : SimArgs fns n) (hF : SimFields
           simpa [List.append_assoc] using this
         · have hl' : σ2 (atvVar vl c1) = a := by
             rw [hk1, hf2 k1 hk1', ← hk1, hv1]
-          simp [evalValue, hl', hv2, hb]
+          exact .pure (by simp [evalValue, hl', hv2, hb])
     · intro t w h
       simp only [evalExpr, bind_eq, bind_ret_iff] at h
       rcases h with h | ⟨t1, ⟨env1, a⟩, t2, hel, h2', rfl⟩
@@ -212,9 +218,9 @@ theorem simE_step {fns n} (hE : SimE fns n) (hA : SimArgs fns n) (hF : SimFields
           -- left operand false: the right operand is skipped
           simp [pure_eq, R.ok] at h2'
           obtain ⟨rfl, rfl, rfl⟩ := h2'
-          refine ⟨σ1.set (.t c) (.bool false), t1, [], ?_, by simp [evalValue], by simp, ha1.set_tmp _ _,
+          refine ⟨σ1.set (.t c) (.bool false), t1, [], ?_, (EvalV.pure (by simp [evalValue])), by simp, ha1.set_tmp _ _,
             (hf1.mono (by omega)).trans (Frame.set_tmp _ _ (Nat.le_refl _)) (Nat.le_refl _)⟩
-          have hite : ExecC (σ1.set (.t c) (.bool false)) [.ite (.t c) true (cr ++ [.assign (.t c) vr]) []] []
+          have hite : ExecC P (σ1.set (.t c) (.bool false)) [.ite (.t c) true (cr ++ [.assign (.t c) vr]) []] []
               (.normal (σ1.set (.t c) (.bool false))) :=
             ExecC.single (.iteElse (by simp) .nil)
           simpa [shortCircuit] using ExecC.append hx1 hite
@@ -227,8 +233,8 @@ theorem simE_step {fns n} (hE : SimE fns n) (hA : SimArgs fns n) (hF : SimFields
           | bool bb =>
             simp [pure_eq, R.ok] at h4
             obtain ⟨rfl, rfl, rfl⟩ := h4
-            refine ⟨σ2.set (.t c) (.bool bb), t1 ++ t3, [], ?_, by simp [evalValue], by simp, ha2.set_tmp _ _, ?_⟩
-            · have hite : ExecC (σ1.set (.t c) (.bool true)) [.ite (.t c) true (cr ++ [.assign (.t c) vr]) []] t3
+            refine ⟨σ2.set (.t c) (.bool bb), t1 ++ t3, [], ?_, (EvalV.pure (by simp [evalValue])), by simp, ha2.set_tmp _ _, ?_⟩
+            · have hite : ExecC P (σ1.set (.t c) (.bool true)) [.ite (.t c) true (cr ++ [.assign (.t c) vr]) []] t3
                   (.normal (σ2.set (.t c) (.bool bb))) := ExecC.single (.iteThen (by simp) hx2)
               simpa [shortCircuit] using ExecC.append hx1 hite
             · exact (((hf1.mono (by omega)).trans (Frame.set_tmp _ _ (Nat.le_refl _)) (Nat.le_refl _)).trans hf2 (by omega)).trans
@@ -249,7 +255,7 @@ theorem simE_step {fns n} (hE : SimE fns n) (hA : SimArgs fns n) (hF : SimFields
             simp only [bind_eq, bind_ret_iff] at h2'
             rcases h2' with h | ⟨t3, ⟨env2, b⟩, t4, her, h4, rfl⟩
             · have hr := hE.ret h2 (ha1.set_tmp c (.bool true)) h
-              have hite : ExecC (σ1.set (.t c) (.bool true)) [.ite (.t c) true (cr ++ [.assign (.t c) vr]) []] t2
+              have hite : ExecC P (σ1.set (.t c) (.bool true)) [.ite (.t c) true (cr ++ [.assign (.t c) vr]) []] t2
                   (.returned w) := ExecC.single (.iteThen (by simp) (ExecC.append_ret _ hr))
               simpa [shortCircuit] using ExecC.append hx1 hite
             · cases b <;> simp [pure_eq, R.ok, R.stuck] at h4
@@ -271,9 +277,9 @@ theorem simE_step {fns n} (hE : SimE fns n) (hA : SimArgs fns n) (hF : SimFields
           -- left operand true: the right operand is skipped
           simp [pure_eq, R.ok] at h2'
           obtain ⟨rfl, rfl, rfl⟩ := h2'
-          refine ⟨σ1.set (.t c) (.bool true), t1, [], ?_, by simp [evalValue], by simp, ha1.set_tmp _ _,
+          refine ⟨σ1.set (.t c) (.bool true), t1, [], ?_, (EvalV.pure (by simp [evalValue])), by simp, ha1.set_tmp _ _,
             (hf1.mono (by omega)).trans (Frame.set_tmp _ _ (Nat.le_refl _)) (Nat.le_refl _)⟩
-          have hite : ExecC (σ1.set (.t c) (.bool true)) [.ite (.t c) false (cr ++ [.assign (.t c) vr]) []] []
+          have hite : ExecC P (σ1.set (.t c) (.bool true)) [.ite (.t c) false (cr ++ [.assign (.t c) vr]) []] []
               (.normal (σ1.set (.t c) (.bool true))) :=
             ExecC.single (.iteElse (by simp) .nil)
           simpa [shortCircuit] using ExecC.append hx1 hite
@@ -286,8 +292,8 @@ theorem simE_step {fns n} (hE : SimE fns n) (hA : SimArgs fns n) (hF : SimFields
           | bool bb =>
             simp [pure_eq, R.ok] at h4
             obtain ⟨rfl, rfl, rfl⟩ := h4
-            refine ⟨σ2.set (.t c) (.bool bb), t1 ++ t3, [], ?_, by simp [evalValue], by simp, ha2.set_tmp _ _, ?_⟩
-            · have hite : ExecC (σ1.set (.t c) (.bool false)) [.ite (.t c) false (cr ++ [.assign (.t c) vr]) []] t3
+            refine ⟨σ2.set (.t c) (.bool bb), t1 ++ t3, [], ?_, (EvalV.pure (by simp [evalValue])), by simp, ha2.set_tmp _ _, ?_⟩
+            · have hite : ExecC P (σ1.set (.t c) (.bool false)) [.ite (.t c) false (cr ++ [.assign (.t c) vr]) []] t3
                   (.normal (σ2.set (.t c) (.bool bb))) := ExecC.single (.iteThen (by simp) hx2)
               simpa [shortCircuit] using ExecC.append hx1 hite
             · exact (((hf1.mono (by omega)).trans (Frame.set_tmp _ _ (Nat.le_refl _)) (Nat.le_refl _)).trans hf2 (by omega)).trans
@@ -308,7 +314,7 @@ theorem simE_step {fns n} (hE : SimE fns n) (hA : SimArgs fns n) (hF : SimFields
             simp only [bind_eq, bind_ret_iff] at h2'
             rcases h2' with h | ⟨t3, ⟨env2, b⟩, t4, her, h4, rfl⟩
             · have hr := hE.ret h2 (ha1.set_tmp c (.bool false)) h
-              have hite : ExecC (σ1.set (.t c) (.bool false)) [.ite (.t c) false (cr ++ [.assign (.t c) vr]) []] t2
+              have hite : ExecC P (σ1.set (.t c) (.bool false)) [.ite (.t c) false (cr ++ [.assign (.t c) vr]) []] t2
                   (.returned w) := ExecC.single (.iteThen (by simp) (ExecC.append_ret _ hr))
               simpa [shortCircuit] using ExecC.append hx1 hite
             · cases b <;> simp [pure_eq, R.ok, R.stuck] at h4
@@ -325,7 +331,7 @@ theorem simE_step {fns n} (hE : SimE fns n) (hA : SimArgs fns n) (hF : SimFields
       | bool bv =>
         simp [pure_eq, R.ok] at h2'
         obtain ⟨rfl, rfl, rfl⟩ := h2'
-        exact ⟨σ1, t1, [], hx1, by simp [evalValue, hv1], by simp, ha1, hf1⟩
+        exact ⟨σ1, t1, [], hx1, (EvalV.pure (by simp [evalValue, hv1])), by simp, ha1, hf1⟩
       | _ => simp [R.stuck] at h2'
     · intro t w h
       simp only [evalExpr, bind_eq, bind_ret_iff] at h
@@ -344,7 +350,7 @@ theorem simE_step {fns n} (hE : SimE fns n) (hA : SimArgs fns n) (hF : SimFields
       | int iv =>
         simp [pure_eq, R.ok] at h2'
         obtain ⟨rfl, rfl, rfl⟩ := h2'
-        exact ⟨σ1, t1, [], hx1, by simp [evalValue, hv1], by simp, ha1, hf1⟩
+        exact ⟨σ1, t1, [], hx1, (EvalV.pure (by simp [evalValue, hv1])), by simp, ha1, hf1⟩
       | _ => simp [R.stuck] at h2'
     · intro t w h
       simp only [evalExpr, bind_eq, bind_ret_iff] at h
@@ -367,7 +373,7 @@ theorem simE_step {fns n} (hE : SimE fns n) (hA : SimArgs fns n) (hF : SimFields
       · obtain ⟨σ1, hx1, hv1, ha1, hf1⟩ := hE.mat h1 ha hel
         simp [R.early] at h2'
         obtain ⟨rfl, rfl⟩ := h2'
-        have hr : ExecC σ1 [.ret (atvVar ve c1)] [] (.returned (σ1 (atvVar ve c1))) := ExecC.single .ret
+        have hr : ExecC P σ1 [.ret (atvVar ve c1)] [] (.returned (σ1 (atvVar ve c1))) := ExecC.single .ret
         rw [hv1] at hr
         simpa [List.append_assoc] using ExecC.append hx1 hr
   | assign x e1 =>
@@ -384,11 +390,11 @@ theorem simE_step {fns n} (hE : SimE fns n) (hA : SimArgs fns n) (hF : SimFields
       | some env2 =>
         simp [hu, pure_eq, R.ok] at h2'
         obtain ⟨rfl, rfl, rfl⟩ := h2'
-        refine ⟨(σ1.set (.t c1) a).set (.x x) a, t1, [], ?_, by simp [evalValue], by simp,
+        refine ⟨(σ1.set (.t c1) a).set (.x x) a, t1, [], ?_, (EvalV.pure (by simp [evalValue])), by simp,
           (ha1.set_tmp _ _).update hu, ?_⟩
-        · have h2s : ExecC (σ1.set (.t c1) a) [.assign (.x x) (.move (.t c1))] []
+        · have h2s : ExecC P (σ1.set (.t c1) a) [.assign (.x x) (.move (.t c1))] []
               (.normal ((σ1.set (.t c1) a).set (.x x) a)) :=
-            ExecC.assign1 (by simp [evalValue])
+            ExecC.assign1 ((EvalV.pure (by simp [evalValue])))
           have := ExecC.append hx1 h2s
           simpa [List.append_assoc] using this
         · exact (hf1.trans (Frame.set_tmp _ _ (Nat.le_refl _)) m1).trans (Frame.set_x _ _ _ _) (Nat.le_refl _)
@@ -405,10 +411,10 @@ theorem simE_step {fns n} (hE : SimE fns n) (hA : SimArgs fns n) (hF : SimFields
     · intro t env' w h
       simp only [evalExpr] at h
       obtain ⟨σ1, hx1, hv1, ha1, hf1⟩ := (hB b env c cb xb c1 σ h1 ha).1 t env' w h
-      refine ⟨σ1.set (.t c1) w, t, [], ?_, by simp [evalValue], by simp, ha1.set_tmp _ _,
+      refine ⟨σ1.set (.t c1) w, t, [], ?_, (EvalV.pure (by simp [evalValue])), by simp, ha1.set_tmp _ _,
         hf1.trans (Frame.set_tmp _ _ (Nat.le_refl _)) m1⟩
-      have h2s : ExecC σ1 [.assign (.t c1) (.move xb)] [] (.normal (σ1.set (.t c1) w)) :=
-        ExecC.assign1 (by simp [evalValue, hv1])
+      have h2s : ExecC P σ1 [.assign (.t c1) (.move xb)] [] (.normal (σ1.set (.t c1) w)) :=
+        ExecC.assign1 ((EvalV.pure (by simp [evalValue, hv1])))
       simpa using ExecC.append hx1 h2s
     · intro t w h
       simp only [evalExpr] at h
@@ -420,7 +426,7 @@ theorem simE_step {fns n} (hE : SimE fns n) (hA : SimArgs fns n) (hF : SimFields
     · intro t env' w h
       simp only [evalExpr] at h
       obtain ⟨σ1, hx1, rfl, ha1, hf1⟩ := (hW cnd b env c cc vc c1 cb xb c2 σ h1 h2 ha).1 t env' w h
-      exact ⟨σ1, t, [], ExecC.single hx1, by simp [evalValue], by simp, ha1, hf1⟩
+      exact ⟨σ1, t, [], ExecC.single hx1, (EvalV.pure (by simp [evalValue])), by simp, ha1, hf1⟩
     · intro t w h
       simp only [evalExpr] at h
       exact ExecC.single ((hW cnd b env c cc vc c1 cb xb c2 σ h1 h2 ha).2 t w h)
@@ -448,17 +454,17 @@ theorem simE_step {fns n} (hE : SimE fns n) (hA : SimArgs fns n) (hF : SimFields
             simp [hb, hu, pure_eq, R.ok] at h2'
             obtain ⟨rfl, rfl, rfl⟩ := h2'
             have hc : σ1 (.t c) = a := by rw [hf1 c (by omega)]; simp
-            refine ⟨((σ1.set (.t (atvNext vr c1)) v).set (.x x) v), t1, [], ?_, by simp [evalValue], by simp,
+            refine ⟨((σ1.set (.t (atvNext vr c1)) v).set (.x x) v), t1, [], ?_, (EvalV.pure (by simp [evalValue])), by simp,
               (ha1.set_tmp _ _).update hu, ?_⟩
-            · have h0 : ExecC σ [.assign (.t c) (.clone (.x x))] [] (.normal (σ.set (.t c) a)) :=
-                ExecC.assign1 (by simp [evalValue, ha x a hx])
-              have h3 : ExecC σ1 [.assign (.t (atvNext vr c1)) (.binop (.t c) op (atvVar vr c1)),
+            · have h0 : ExecC P σ [.assign (.t c) (.clone (.x x))] [] (.normal (σ.set (.t c) a)) :=
+                ExecC.assign1 ((EvalV.pure (by simp [evalValue, ha x a hx])))
+              have h3 : ExecC P σ1 [.assign (.t (atvNext vr c1)) (.binop (.t c) op (atvVar vr c1)),
                     .assign (.x x) (.move (.t (atvNext vr c1)))] []
                   (.normal ((σ1.set (.t (atvNext vr c1)) v).set (.x x) v)) := by
-                have s1 : ExecS σ1 (.assign (.t (atvNext vr c1)) (.binop (.t c) op (atvVar vr c1))) []
-                    (.normal (σ1.set (.t (atvNext vr c1)) v)) := .assign (by simp [evalValue, hc, hv1, hb])
-                have s2 : ExecS (σ1.set (.t (atvNext vr c1)) v) (.assign (.x x) (.move (.t (atvNext vr c1)))) []
-                    (.normal ((σ1.set (.t (atvNext vr c1)) v).set (.x x) v)) := .assign (by simp [evalValue])
+                have s1 : ExecS P σ1 (.assign (.t (atvNext vr c1)) (.binop (.t c) op (atvVar vr c1))) []
+                    (.normal (σ1.set (.t (atvNext vr c1)) v)) := .assign ((EvalV.pure (by simp [evalValue, hc, hv1, hb])))
+                have s2 : ExecS P (σ1.set (.t (atvNext vr c1)) v) (.assign (.x x) (.move (.t (atvNext vr c1)))) []
+                    (.normal ((σ1.set (.t (atvNext vr c1)) v).set (.x x) v)) := .assign ((EvalV.pure (by simp [evalValue])))
                 simpa using ExecC.cons s1 (ExecC.single s2)
               have := ExecC.append h0 (ExecC.append hx1 h3)
               simpa [List.append_assoc] using this
@@ -471,8 +477,8 @@ theorem simE_step {fns n} (hE : SimE fns n) (hA : SimArgs fns n) (hF : SimFields
       | some a =>
         simp only [hx, Bool.not_true, Bool.false_eq_true, if_false, bind_eq, bind_ret_iff] at h
         have ha0 : Agree env (σ.set (.t c) a) := ha.set_tmp _ _
-        have h0 : ExecC σ [.assign (.t c) (.clone (.x x))] [] (.normal (σ.set (.t c) a)) :=
-          ExecC.assign1 (by simp [evalValue, ha x a hx])
+        have h0 : ExecC P σ [.assign (.t c) (.clone (.x x))] [] (.normal (σ.set (.t c) a)) :=
+          ExecC.assign1 ((EvalV.pure (by simp [evalValue, ha x a hx])))
         rcases h with h | ⟨t1, ⟨env1, b⟩, t2, hel, h2', rfl⟩
         · have := ExecC.append h0 (ExecC.append_ret (atvCode vr c1 ++ [.assign (.t (atvNext vr c1)) (.binop (.t c) op (atvVar vr c1)),
                     .assign (.x x) (.move (.t (atvNext vr c1)))]) (hE.ret h1 ha0 h))
@@ -497,17 +503,17 @@ theorem simE_step {fns n} (hE : SimE fns n) (hA : SimArgs fns n) (hF : SimFields
         cases bv with
         | true =>
           obtain ⟨σ2, hx2, hv2, ha2, hf2⟩ := (hB th env1 _ ct xt c2 σ1 h2 ha1).1 t2 env' w h2'
-          refine ⟨σ2.set (.t c2) w, t1 ++ t2, [], ?_, by simp [evalValue], by simp, ha2.set_tmp _ _, ?_⟩
-          · have hthen : ExecC σ1 (ct ++ [.assign (.t c2) (.move xt)]) t2 (.normal (σ2.set (.t c2) w)) := by
-              simpa using ExecC.append hx2 (ExecC.assign1 (x := .t c2) (v := .move xt) (t := []) (val := w) (by simp [evalValue, hv2]))
+          refine ⟨σ2.set (.t c2) w, t1 ++ t2, [], ?_, (EvalV.pure (by simp [evalValue])), by simp, ha2.set_tmp _ _, ?_⟩
+          · have hthen : ExecC P σ1 (ct ++ [.assign (.t c2) (.move xt)]) t2 (.normal (σ2.set (.t c2) w)) := by
+              simpa using ExecC.append hx2 (ExecC.assign1 (x := .t c2) (v := .move xt) (t := []) (val := w) ((EvalV.pure (by simp [evalValue, hv2]))))
             have := ExecC.append hx1 (ExecC.single (ExecS.iteThen (els := ce ++ [.assign (.t c2) (.move xe)]) hv1 hthen))
             simpa [List.append_assoc] using this
           · exact (hf1.trans hf2 (by omega)).trans (Frame.set_tmp _ _ (by omega)) (Nat.le_refl _)
         | false =>
           obtain ⟨σ2, hx2, hv2, ha2, hf2⟩ := (hB el env1 _ ce xe c3 σ1 h3 ha1).1 t2 env' w h2'
-          refine ⟨σ2.set (.t c2) w, t1 ++ t2, [], ?_, by simp [evalValue], by simp, ha2.set_tmp _ _, ?_⟩
-          · have helse : ExecC σ1 (ce ++ [.assign (.t c2) (.move xe)]) t2 (.normal (σ2.set (.t c2) w)) := by
-              simpa using ExecC.append hx2 (ExecC.assign1 (x := .t c2) (v := .move xe) (t := []) (val := w) (by simp [evalValue, hv2]))
+          refine ⟨σ2.set (.t c2) w, t1 ++ t2, [], ?_, (EvalV.pure (by simp [evalValue])), by simp, ha2.set_tmp _ _, ?_⟩
+          · have helse : ExecC P σ1 (ce ++ [.assign (.t c2) (.move xe)]) t2 (.normal (σ2.set (.t c2) w)) := by
+              simpa using ExecC.append hx2 (ExecC.assign1 (x := .t c2) (v := .move xe) (t := []) (val := w) ((EvalV.pure (by simp [evalValue, hv2]))))
             have := ExecC.append hx1 (ExecC.single (ExecS.iteElse (k := true) (thn := ct ++ [.assign (.t c2) (.move xt)]) (by simpa using hv1) helse))
             simpa [List.append_assoc] using this
           · exact (hf1.trans (hf2.mono (c := c) (by omega)) (Nat.le_refl _)).trans (Frame.set_tmp _ _ (by omega)) (Nat.le_refl _)
@@ -544,8 +550,8 @@ theorem simE_step {fns n} (hE : SimE fns n) (hA : SimArgs fns n) (hF : SimFields
       simp only [evalExpr, bind_eq, bind_ok_iff] at h
       obtain ⟨t1, ⟨env1, a⟩, t2, hel, h2', rfl⟩ := h
       obtain ⟨σ1, hx1, hv1, ha1, hf1⟩ := hE.mat h1 ha hel
-      have hinit : ExecC σ1 [.assign (.t c2) (.const .unit)] [] (.normal (σ1.set (.t c2) .unit)) :=
-        ExecC.assign1 (by simp [evalValue])
+      have hinit : ExecC P σ1 [.assign (.t c2) (.const .unit)] [] (.normal (σ1.set (.t c2) .unit)) :=
+        ExecC.assign1 ((EvalV.pure (by simp [evalValue])))
       have hxc : (σ1.set (.t c2) .unit) (atvVar vc c1) = a := by rw [set_other _ _ hne, hv1]
       cases a with
       | bool bv =>
@@ -558,11 +564,11 @@ theorem simE_step {fns n} (hE : SimE fns n) (hA : SimArgs fns n) (hF : SimFields
           | unit =>
             simp [pure_eq, R.ok] at h4
             obtain ⟨rfl, rfl, rfl⟩ := h4
-            refine ⟨σ2.set (.t c2) .unit, t1 ++ t3, [], ?_, by simp [evalValue], by simp, ha2.set_tmp _ _, ?_⟩
-            · have hthen : ExecC (σ1.set (.t c2) .unit) (ct ++ [.assign (.t c2) (.move xt)]) t3
+            refine ⟨σ2.set (.t c2) .unit, t1 ++ t3, [], ?_, (EvalV.pure (by simp [evalValue])), by simp, ha2.set_tmp _ _, ?_⟩
+            · have hthen : ExecC P (σ1.set (.t c2) .unit) (ct ++ [.assign (.t c2) (.move xt)]) t3
                   (.normal (σ2.set (.t c2) .unit)) := by
                 simpa using ExecC.append hx2 (ExecC.assign1 (x := .t c2) (v := .move xt) (t := []) (val := .unit)
-                  (by simp [evalValue, hv2]))
+                  ((EvalV.pure (by simp [evalValue, hv2]))))
               have := ExecC.append hx1 (ExecC.append hinit (ExecC.single (ExecS.iteThen (els := []) hxc hthen)))
               simpa [List.append_assoc] using this
             · exact ((hf1.trans (Frame.set_tmp _ _ (by omega)) (Nat.le_refl _)).trans (hf2.mono (c := c) (by omega)) (Nat.le_refl _)).trans
@@ -571,7 +577,7 @@ theorem simE_step {fns n} (hE : SimE fns n) (hA : SimArgs fns n) (hF : SimFields
         | false =>
           simp [pure_eq, R.ok] at h2'
           obtain ⟨rfl, rfl, rfl⟩ := h2'
-          refine ⟨σ1.set (.t c2) .unit, t1, [], ?_, by simp [evalValue], by simp, ha1.set_tmp _ _,
+          refine ⟨σ1.set (.t c2) .unit, t1, [], ?_, (EvalV.pure (by simp [evalValue])), by simp, ha1.set_tmp _ _,
             hf1.trans (Frame.set_tmp _ _ (by omega)) (Nat.le_refl _)⟩
           have := ExecC.append hx1 (ExecC.append hinit (ExecC.single
             (ExecS.iteElse (k := true) (thn := ct ++ [.assign (.t c2) (.move xt)]) (by simpa using hxc) .nil)))
@@ -583,8 +589,8 @@ theorem simE_step {fns n} (hE : SimE fns n) (hA : SimArgs fns n) (hF : SimFields
       · have := hE.ret h1 ha h
         simpa [List.append_assoc] using ExecC.append_ret _ this
       · obtain ⟨σ1, hx1, hv1, ha1, hf1⟩ := hE.mat h1 ha hel
-        have hinit : ExecC σ1 [.assign (.t c2) (.const .unit)] [] (.normal (σ1.set (.t c2) .unit)) :=
-          ExecC.assign1 (by simp [evalValue])
+        have hinit : ExecC P σ1 [.assign (.t c2) (.const .unit)] [] (.normal (σ1.set (.t c2) .unit)) :=
+          ExecC.assign1 ((EvalV.pure (by simp [evalValue])))
         have hxc : (σ1.set (.t c2) .unit) (atvVar vc c1) = a := by rw [set_other _ _ hne, hv1]
         cases a with
         | bool bv =>
@@ -614,12 +620,12 @@ theorem simE_step {fns n} (hE : SimE fns n) (hA : SimArgs fns n) (hF : SimFields
       | int iv =>
         simp [pure_eq, R.ok] at h2'
         obtain ⟨rfl, rfl, rfl⟩ := h2'
-        have s1 : ExecS σ1 (.setDisc (.t (atvNext ve c1)) (.opt (some 0))) [] (.normal (σ1.set (.t (atvNext ve c1)) (.opt (some 0)))) := .setDisc
-        have s2 : ExecS (σ1.set (.t (atvNext ve c1)) (.opt (some 0))) (.assignField (.t (atvNext ve c1)) 0 (.move (atvVar ve c1))) []
+        have s1 : ExecS P σ1 (.setDisc (.t (atvNext ve c1)) (.opt (some 0))) [] (.normal (σ1.set (.t (atvNext ve c1)) (.opt (some 0)))) := .setDisc
+        have s2 : ExecS P (σ1.set (.t (atvNext ve c1)) (.opt (some 0))) (.assignField (.t (atvNext ve c1)) 0 (.move (atvVar ve c1))) []
             (.normal ((σ1.set (.t (atvNext ve c1)) (.opt (some 0))).set (.t (atvNext ve c1)) (.opt (some iv)))) :=
-          .assignField (n := iv) (by simp [evalValue, set_other _ _ hne, hv1]) (by simp [setPayload])
+          .assignField (n := iv) ((EvalV.pure (by simp [evalValue, set_other _ _ hne, hv1]))) (by simp [setPayload])
         refine ⟨(σ1.set (.t (atvNext ve c1)) (.opt (some 0))).set (.t (atvNext ve c1)) (.opt (some iv)), t1, [], ?_,
-          by simp [evalValue], by simp, (ha1.set_tmp _ _).set_tmp _ _,
+          (EvalV.pure (by simp [evalValue])), by simp, (ha1.set_tmp _ _).set_tmp _ _,
           (hf1.trans (Frame.set_tmp _ _ (by omega)) (Nat.le_refl _)).trans (Frame.set_tmp _ _ (by omega)) (Nat.le_refl _)⟩
         have := ExecC.append hx1 (ExecC.cons s1 (ExecC.single s2))
         simpa [List.append_assoc] using this
@@ -636,7 +642,7 @@ theorem simE_step {fns n} (hE : SimE fns n) (hA : SimArgs fns n) (hF : SimFields
     · intro t env' w h
       simp [evalExpr, R.ok] at h
       obtain ⟨rfl, rfl, rfl⟩ := h
-      exact ⟨_, [], [], ExecC.single .setDisc, by simp [evalValue], rfl, ha.set_tmp _ _,
+      exact ⟨_, [], [], ExecC.single .setDisc, (EvalV.pure (by simp [evalValue])), rfl, ha.set_tmp _ _,
         Frame.set_tmp _ _ (Nat.le_refl _)⟩
     · intro t w h; simp [evalExpr, R.ok] at h
   | accept e1 =>
@@ -657,13 +663,13 @@ theorem simE_step {fns n} (hE : SimE fns n) (hA : SimArgs fns n) (hF : SimFields
         | int iv =>
           simp [R.early] at h2'
           obtain ⟨rfl, rfl⟩ := h2'
-          have s1 : ExecS σ1 (.setDisc (.t c1) (.verdict true 0)) [] (.normal (σ1.set (.t c1) (.verdict true 0))) := .setDisc
-          have s2 : ExecS (σ1.set (.t c1) (.verdict true 0)) (.assignField (.t c1) 0 ve) t2'
+          have s1 : ExecS P σ1 (.setDisc (.t c1) (.verdict true 0)) [] (.normal (σ1.set (.t c1) (.verdict true 0))) := .setDisc
+          have s2 : ExecS P (σ1.set (.t c1) (.verdict true 0)) (.assignField (.t c1) 0 ve) t2'
               (.normal ((σ1.set (.t c1) (.verdict true 0)).set (.t c1) (.verdict true iv))) :=
-            .assignField (n := iv) (by rw [evalValue_set_fresh _ hvb (Nat.le_refl _)]; exact hv1) (by simp [setPayload])
-          have s3 : ExecS ((σ1.set (.t c1) (.verdict true 0)).set (.t c1) (.verdict true iv)) (.ret (.t c1)) []
+            .assignField (n := iv) (hv1.set_fresh _ hvb (Nat.le_refl _)) (by simp [setPayload])
+          have s3 : ExecS P ((σ1.set (.t c1) (.verdict true 0)).set (.t c1) (.verdict true iv)) (.ret (.t c1)) []
               (.returned (.verdict true iv)) := by
-            have := ExecS.ret (σ := (σ1.set (.t c1) (.verdict true 0)).set (.t c1) (.verdict true iv)) (x := .t c1)
+            have := ExecS.ret (P := P) (σ := (σ1.set (.t c1) (.verdict true 0)).set (.t c1) (.verdict true iv)) (x := .t c1)
             simpa using this
           have := ExecC.append hx1 (ExecC.cons s1 (ExecC.cons s2 (ExecC.consRet (rest := []) s3)))
           simpa [List.append_assoc] using this
@@ -686,13 +692,13 @@ theorem simE_step {fns n} (hE : SimE fns n) (hA : SimArgs fns n) (hF : SimFields
         | int iv =>
           simp [R.early] at h2'
           obtain ⟨rfl, rfl⟩ := h2'
-          have s1 : ExecS σ1 (.setDisc (.t c1) (.verdict false 0)) [] (.normal (σ1.set (.t c1) (.verdict false 0))) := .setDisc
-          have s2 : ExecS (σ1.set (.t c1) (.verdict false 0)) (.assignField (.t c1) 0 ve) t2'
+          have s1 : ExecS P σ1 (.setDisc (.t c1) (.verdict false 0)) [] (.normal (σ1.set (.t c1) (.verdict false 0))) := .setDisc
+          have s2 : ExecS P (σ1.set (.t c1) (.verdict false 0)) (.assignField (.t c1) 0 ve) t2'
               (.normal ((σ1.set (.t c1) (.verdict false 0)).set (.t c1) (.verdict false iv))) :=
-            .assignField (n := iv) (by rw [evalValue_set_fresh _ hvb (Nat.le_refl _)]; exact hv1) (by simp [setPayload])
-          have s3 : ExecS ((σ1.set (.t c1) (.verdict false 0)).set (.t c1) (.verdict false iv)) (.ret (.t c1)) []
+            .assignField (n := iv) (hv1.set_fresh _ hvb (Nat.le_refl _)) (by simp [setPayload])
+          have s3 : ExecS P ((σ1.set (.t c1) (.verdict false 0)).set (.t c1) (.verdict false iv)) (.ret (.t c1)) []
               (.returned (.verdict false iv)) := by
-            have := ExecS.ret (σ := (σ1.set (.t c1) (.verdict false 0)).set (.t c1) (.verdict false iv)) (x := .t c1)
+            have := ExecS.ret (P := P) (σ := (σ1.set (.t c1) (.verdict false 0)).set (.t c1) (.verdict false iv)) (x := .t c1)
             simpa using this
           have := ExecC.append hx1 (ExecC.cons s1 (ExecC.cons s2 (ExecC.consRet (rest := []) s3)))
           simpa [List.append_assoc] using this
@@ -714,16 +720,16 @@ theorem simE_step {fns n} (hE : SimE fns n) (hA : SimArgs fns n) (hF : SimFields
         | some iv =>
           simp [pure_eq, R.ok] at h2'
           obtain ⟨rfl, rfl, rfl⟩ := h2'
-          have s1 : ExecS σ1 (.assign (.t (atvNext ve c1)) (.disc (atvVar ve c1))) [] (.normal (σ1.set (.t (atvNext ve c1)) (.int 0))) :=
-            .assign (by simp [evalValue, hv1, discOf])
-          have s2 : ExecS (σ1.set (.t (atvNext ve c1)) (.int 0))
+          have s1 : ExecS P σ1 (.assign (.t (atvNext ve c1)) (.disc (atvVar ve c1))) [] (.normal (σ1.set (.t (atvNext ve c1)) (.int 0))) :=
+            .assign ((EvalV.pure (by simp [evalValue, hv1, discOf])))
+          have s2 : ExecS P (σ1.set (.t (atvNext ve c1)) (.int 0))
               (.iteD (.t (atvNext ve c1)) 0 [] [.setDisc (.t ((atvNext ve c1) + 1)) (.opt none), .ret (.t ((atvNext ve c1) + 1))]) []
               (.normal (σ1.set (.t (atvNext ve c1)) (.int 0))) := .iteDThen (by simp) .nil
           refine ⟨σ1.set (.t (atvNext ve c1)) (.int 0), t1, [], ?_, ?_, by simp, ha1.set_tmp _ _,
             hf1.trans (Frame.set_tmp _ _ (by omega)) (Nat.le_refl _)⟩
           · have := ExecC.append hx1 (ExecC.cons s1 (ExecC.single s2))
             simpa [List.append_assoc] using this
-          · simp [evalValue, set_other _ _ hne, hv1, payload]
+          · exact .pure (by simp [evalValue, set_other _ _ hne, hv1, payload])
         | none => simp [R.early] at h2'
       | _ => simp [R.stuck] at h2'
     · intro t w h
@@ -739,22 +745,90 @@ theorem simE_step {fns n} (hE : SimE fns n) (hA : SimArgs fns n) (hF : SimFields
           | none =>
             simp [R.early] at h2'
             obtain ⟨rfl, rfl⟩ := h2'
-            have s1 : ExecS σ1 (.assign (.t (atvNext ve c1)) (.disc (atvVar ve c1))) [] (.normal (σ1.set (.t (atvNext ve c1)) (.int 1))) :=
-              .assign (by simp [evalValue, hv1, discOf])
-            have r1 : ExecS (σ1.set (.t (atvNext ve c1)) (.int 1)) (.setDisc (.t ((atvNext ve c1) + 1)) (.opt none)) []
+            have s1 : ExecS P σ1 (.assign (.t (atvNext ve c1)) (.disc (atvVar ve c1))) [] (.normal (σ1.set (.t (atvNext ve c1)) (.int 1))) :=
+              .assign ((EvalV.pure (by simp [evalValue, hv1, discOf])))
+            have r1 : ExecS P (σ1.set (.t (atvNext ve c1)) (.int 1)) (.setDisc (.t ((atvNext ve c1) + 1)) (.opt none)) []
                 (.normal ((σ1.set (.t (atvNext ve c1)) (.int 1)).set (.t ((atvNext ve c1) + 1)) (.opt none))) := .setDisc
-            have r2 : ExecS ((σ1.set (.t (atvNext ve c1)) (.int 1)).set (.t ((atvNext ve c1) + 1)) (.opt none)) (.ret (.t ((atvNext ve c1) + 1))) []
+            have r2 : ExecS P ((σ1.set (.t (atvNext ve c1)) (.int 1)).set (.t ((atvNext ve c1) + 1)) (.opt none)) (.ret (.t ((atvNext ve c1) + 1))) []
                 (.returned (.opt none)) := by
-              have := ExecS.ret (σ := (σ1.set (.t (atvNext ve c1)) (.int 1)).set (.t ((atvNext ve c1) + 1)) (.opt none)) (x := .t ((atvNext ve c1) + 1))
+              have := ExecS.ret (P := P) (σ := (σ1.set (.t (atvNext ve c1)) (.int 1)).set (.t ((atvNext ve c1) + 1)) (.opt none)) (x := .t ((atvNext ve c1) + 1))
               simpa using this
-            have s2 : ExecS (σ1.set (.t (atvNext ve c1)) (.int 1))
+            have s2 : ExecS P (σ1.set (.t (atvNext ve c1)) (.int 1))
                 (.iteD (.t (atvNext ve c1)) 0 [] [.setDisc (.t ((atvNext ve c1) + 1)) (.opt none), .ret (.t ((atvNext ve c1) + 1))]) []
                 (.returned (.opt none)) :=
               .iteDElse (d := 1) (by simp) (by omega) (ExecC.cons r1 (ExecC.consRet (rest := []) r2))
             have := ExecC.append hx1 (ExecC.cons s1 (ExecC.consRet (rest := []) s2))
             simpa [List.append_assoc] using this
         | _ => simp [R.stuck] at h2'
-  | call f args => simp [lowerE] at hl
+  | call f args =>
+    simp [lowerE, Option.bind_eq_some_iff] at hl
+    obtain ⟨ca, tmps, c1, h1, rfl, rfl, rfl⟩ := hl
+    constructor
+    · intro t env' w h
+      simp only [evalExpr, bind_eq, bind_ok_iff] at h
+      obtain ⟨t1, ⟨env1, vs⟩, t2, hargs, h2, rfl⟩ := h
+      obtain ⟨σ1, hx, hmap, ha1, hf1⟩ := (hA args env c _ _ _ σ h1 ha).1 t1 env1 vs hargs
+      cases hfd : fns[f]? with
+      | none => simp [hfd, R.stuck] at h2
+      | some fd =>
+        cases hbp : bindParams fd.params vs [] with
+        | none => simp [hfd, hbp, R.stuck] at h2
+        | some cenv =>
+          simp only [hfd, hbp] at h2
+          obtain ⟨codef, hlf, hPf⟩ := hP f fd hfd
+          simp [lowerFn, Option.bind_eq_some_iff] at hlf
+          obtain ⟨cb, xb, ⟨cz, hb⟩, rfl⟩ := hlf
+          have hagree : Agree cenv (storeOfEnv cenv) := by
+            intro x v hx; simp [storeOfEnv, hx]
+          have hB' := hB fd.body cenv 0 cb xb cz (storeOfEnv cenv) hb hagree
+          -- the callee's structured MIR returns the callee's value
+          have callee : ∀ tc vv, (evalBlock fns n cenv fd.body).tr = tc →
+              ((∃ e', (evalBlock fns n cenv fd.body).out = .ok (e', vv)) ∨ (evalBlock fns n cenv fd.body).out = .ret vv) →
+              ExecC P (storeOfEnv cenv) (cb ++ [.ret xb]) tc (.returned vv) := by
+            intro tc vv htr hout
+            cases hr : evalBlock fns n cenv fd.body with
+            | mk tr' o =>
+              rw [hr] at htr hout; simp at htr; subst htr
+              rcases hout with ⟨e', ho⟩ | ho
+              · simp at ho; subst ho
+                obtain ⟨σc, hxc, hvc, _, _⟩ := hB'.1 tr' e' vv hr
+                have hret : ExecC P σc [.ret xb] [] (.returned (σc xb)) := ExecC.single .ret
+                rw [hvc] at hret
+                simpa using ExecC.append hxc hret
+              · simp at ho; subst ho
+                exact ExecC.append_ret _ (hB'.2 tr' vv hr)
+          cases hr : evalBlock fns n cenv fd.body with
+          | mk tr' o =>
+            rw [hr] at h2
+            cases o with
+            | ok pr =>
+              obtain ⟨e', vv⟩ := pr
+              simp at h2
+              obtain ⟨rfl, rfl, rfl⟩ := h2
+              refine ⟨σ1, t1, tr', hx, ?_, rfl, ha1, hf1⟩
+              exact .call hPf (by rw [hmap]; exact hbp) (callee tr' vv (by rw [hr]) (Or.inl ⟨e', by rw [hr]⟩))
+            | ret vv =>
+              simp at h2
+              obtain ⟨rfl, rfl, rfl⟩ := h2
+              refine ⟨σ1, t1, tr', hx, ?_, rfl, ha1, hf1⟩
+              exact .call hPf (by rw [hmap]; exact hbp) (callee tr' vv (by rw [hr]) (Or.inr (by rw [hr])))
+            | fuel => simp at h2
+            | stuck w' => simp at h2
+    · intro t w h
+      simp only [evalExpr, bind_eq, bind_ret_iff] at h
+      rcases h with h | ⟨t1, ⟨env1, vs⟩, t2, hargs, h2, rfl⟩
+      · exact (hA args env c _ _ _ σ h1 ha).2 t w h
+      · cases hfd : fns[f]? with
+        | none => simp [hfd, R.stuck] at h2
+        | some fd =>
+          cases hbp : bindParams fd.params vs [] with
+          | none => simp [hfd, hbp, R.stuck] at h2
+          | some cenv =>
+            simp only [hfd, hbp] at h2
+            cases hr : evalBlock fns n cenv fd.body with
+            | mk tr' o =>
+              rw [hr] at h2
+              cases o <;> simp at h2
   | mtch s isOpt arms =>
     obtain ⟨hds, ce, ve, c1, ch0, c0, ch1, c1', ch2, c2, dflt, c3, codes, h1, h2, h3, h4, h5, h6, rfl, rfl⟩ := lowerE_mtch_inv hl
     have ⟨m1, b1⟩ := lowerE_mono s c ce ve c1 h1
@@ -840,14 +914,14 @@ theorem simE_step {fns n} (hE : SimE fns n) (hA : SimArgs fns n) (hF : SimFields
           rename_i o; cases o <;> simp
         obtain ⟨k, hk⟩ := Option.isSome_iff_exists.mp hd
         obtain ⟨sel, cx, cx', hch, hcx, hsel⟩ := chain v k hok hk
-        have s1 : ExecS σ1 (.assign (.t (atvNext ve c1)) (.disc (.t ke))) [] (.normal (σ1.set (.t (atvNext ve c1)) (.int k))) :=
-          .assign (by simp [evalValue, hv1, hk])
+        have s1 : ExecS P σ1 (.assign (.t (atvNext ve c1)) (.disc (.t ke))) [] (.normal (σ1.set (.t (atvNext ve c1)) (.int k))) :=
+          .assign ((EvalV.pure (by simp [evalValue, hv1, hk])))
         have hxe2 : (σ1.set (.t (atvNext ve c1)) (.int k)) (.t ke) = v := by rw [set_other _ _ hne, hv1]
         obtain ⟨a, σ2, tg, code, σ3, tb', hg, hcode, hxb, hr, rfl, ha3, hf3⟩ :=
           (hC arms env1 sel ke _ 0 cx _ cx' (σ1.set (.t (atvNext ve c1)) (.int k)) v c3 (c3 + 1) codes c'
             (atvNext ve c1 + 1) hch h6 (ha1.set_tmp _ _) hxe2 hd (by omega) hcx (by omega) (by omega) (by omega) hsel).1 t2 env' w h2'
         have s2 := ExecS.mtchArm (d := .t (atvNext ve c1)) (k := k) (set_same _ _ _) (by simpa using hg) hcode hxb
-        refine ⟨σ3, t1 ++ (tg ++ tb'), [], ?_, by simp [evalValue, hr], by simp, ha3,
+        refine ⟨σ3, t1 ++ (tg ++ tb'), [], ?_, (EvalV.pure (by simp [evalValue, hr])), by simp, ha3,
           (hf1.trans (Frame.set_tmp _ _ (by omega)) (Nat.le_refl _)).trans (hf3.mono (c := c) (by omega)) (Nat.le_refl _)⟩
         have := ExecC.append hx1 (ExecC.cons s1 (ExecC.single s2))
         rw [hke]
@@ -867,8 +941,8 @@ theorem simE_step {fns n} (hE : SimE fns n) (hA : SimArgs fns n) (hF : SimFields
             rename_i o; cases o <;> simp
           obtain ⟨k, hk⟩ := Option.isSome_iff_exists.mp hd
           obtain ⟨sel, cx, cx', hch, hcx, hsel⟩ := chain v k hok hk
-          have s1 : ExecS σ1 (.assign (.t (atvNext ve c1)) (.disc (.t ke))) [] (.normal (σ1.set (.t (atvNext ve c1)) (.int k))) :=
-            .assign (by simp [evalValue, hv1, hk])
+          have s1 : ExecS P σ1 (.assign (.t (atvNext ve c1)) (.disc (.t ke))) [] (.normal (σ1.set (.t (atvNext ve c1)) (.int k))) :=
+            .assign ((EvalV.pure (by simp [evalValue, hv1, hk])))
           have hxe2 : (σ1.set (.t (atvNext ve c1)) (.int k)) (.t ke) = v := by rw [set_other _ _ hne, hv1]
           have hres := (hC arms env1 sel ke _ 0 cx _ cx' (σ1.set (.t (atvNext ve c1)) (.int k)) v c3 (c3 + 1) codes c'
             (atvNext ve c1 + 1) hch h6 (ha1.set_tmp _ _) hxe2 hd (by omega) hcx (by omega) (by omega) (by omega) hsel).2 t2 w h2'
@@ -895,12 +969,12 @@ theorem simE_step {fns n} (hE : SimE fns n) (hA : SimArgs fns n) (hF : SimFields
       simp [pure_eq, R.ok] at h2'
       obtain ⟨rfl, rfl, rfl⟩ := h2'
       obtain ⟨σ1, hx1, hmap, ha1, hf1⟩ := (hK args env c ca xs c1 σ h1 ha).1 t1 env1 fs hargs
-      have s1 : ExecS σ1 (.setDisc (.t c1) (.enm k (List.replicate xs.length 0))) []
+      have s1 : ExecS P σ1 (.setDisc (.t c1) (.enm k (List.replicate xs.length 0))) []
           (.normal (σ1.set (.t c1) (.enm k (List.replicate xs.length 0)))) := .setDisc
       have hmap' : xs.map (σ1.set (.t c1) (.enm k (List.replicate xs.length 0))) = fs.map Val.int := by
         rw [← hmap]; exact List.map_congr_left (fun y hy => set_other _ _ (hne y hy))
       obtain ⟨σ2, hx2, hv2, hk2⟩ := exec_storeFields (k := k) (to := .t c1) xs fs [] _ (by simp) hne hmap'
-      refine ⟨σ2, t1, [], ?_, by simp [evalValue, hv2], by simp, ?_, ?_⟩
+      refine ⟨σ2, t1, [], ?_, (EvalV.pure (by simp [evalValue, hv2])), by simp, ?_, ?_⟩
       · have := ExecC.append hx1 (ExecC.cons s1 hx2)
         simpa [List.append_assoc] using this
       · intro x v hx
@@ -920,7 +994,7 @@ theorem simE_step {fns n} (hE : SimE fns n) (hA : SimArgs fns n) (hF : SimFields
     obtain ⟨cf, c1, h1, rfl, rfl, rfl⟩ := hl
     have m1 := lowerFields_mono fs _ _ _ cf c1 h1
     have hσ0 : (σ.set (.t c) (.recd [])) (.t c) = .recd [] := by simp
-    have h0 : ExecS σ (.setDisc (.t c) (.recd [])) [] (.normal (σ.set (.t c) (.recd []))) := .setDisc
+    have h0 : ExecS P σ (.setDisc (.t c) (.recd [])) [] (.normal (σ.set (.t c) (.recd []))) := .setDisc
     have hF' := hF fs env c 0 (c + 1) cf c1 (σ.set (.t c) (.recd [])) [] h1 (ha.set_tmp _ _) (by omega) hσ0 rfl
     constructor
     · intro t env' w h
@@ -929,7 +1003,7 @@ theorem simE_step {fns n} (hE : SimE fns n) (hA : SimArgs fns n) (hF : SimFields
       simp [pure_eq, R.ok] at h2'
       obtain ⟨rfl, rfl, rfl⟩ := h2'
       obtain ⟨σ1, hx1, hv1, ha1, hf1⟩ := hF'.1 t1 env1 fs' hargs
-      refine ⟨σ1, t1, [], ?_, by simp [evalValue, hv1], by simp, ha1,
+      refine ⟨σ1, t1, [], ?_, (EvalV.pure (by simp [evalValue, hv1])), by simp, ha1,
         (Frame.set_tmp σ _ (Nat.le_refl c)).trans hf1 (Nat.le_refl _)⟩
       simpa using ExecC.cons h0 hx1
     · intro t w h
@@ -962,7 +1036,7 @@ theorem simE_step {fns n} (hE : SimE fns n) (hA : SimArgs fns n) (hF : SimFields
               | some y =>
                 simp [hfi, pure_eq, R.ok] at h2'
                 obtain ⟨rfl, rfl, rfl⟩ := h2'
-                exact ⟨σ, [], [], .nil, by simp [evalValue, ha x _ hx, payload, hfi], rfl, ha, Frame.refl _ _⟩
+                exact ⟨σ, [], [], .nil, (EvalV.pure (by simp [evalValue, ha x _ hx, payload, hfi])), rfl, ha, Frame.refl _ _⟩
             | _ => simp [R.stuck] at h2'
       · intro t w h
         simp only [evalExpr, bind_eq, bind_ret_iff] at h
@@ -988,7 +1062,7 @@ theorem simE_step {fns n} (hE : SimE fns n) (hA : SimArgs fns n) (hF : SimFields
         | some x =>
           simp [hfi, pure_eq, R.ok] at h2'
           obtain ⟨rfl, rfl, rfl⟩ := h2'
-          exact ⟨σ1, t1, [], hx1, by simp [evalValue, hv1, payload, hfi], by simp, ha1, hf1⟩
+          exact ⟨σ1, t1, [], hx1, (EvalV.pure (by simp [evalValue, hv1, payload, hfi])), by simp, ha1, hf1⟩
       | _ => simp [R.stuck] at h2'
     · intro t w h
       simp only [evalExpr, bind_eq, bind_ret_iff] at h
@@ -1001,7 +1075,7 @@ theorem simE_step {fns n} (hE : SimE fns n) (hA : SimArgs fns n) (hF : SimFields
   | fstr ps => simp [lowerE] at hl
 
 
-theorem simArgs_step {fns n} (hE : SimE fns n) (hA : SimArgs fns n) : SimArgs fns (n + 1) := by
+theorem simArgs_step {fns P n} (hE : SimE fns P n) (hA : SimArgs fns P n) : SimArgs fns P (n + 1) := by
   intro es env c code tmps c' σ hl ha
   cases es with
   | nil =>
@@ -1038,7 +1112,7 @@ theorem simArgs_step {fns n} (hE : SimE fns n) (hA : SimArgs fns n) : SimArgs fn
           simpa [List.append_assoc] using ExecC.append hx1 this
         · simp [pure_eq, R.ok] at h4
 
-theorem simFields_step {fns n} (hE : SimE fns n) (hF : SimFields fns n) : SimFields fns (n + 1) := by
+theorem simFields_step {fns P n} (hE : SimE fns P n) (hF : SimFields fns P n) : SimFields fns P (n + 1) := by
   intro es env k i c code c' σ pre hl ha hk hσ hlen
   cases es with
   | nil =>
@@ -1055,12 +1129,12 @@ theorem simFields_step {fns n} (hE : SimE fns n) (hF : SimFields fns n) : SimFie
     have ⟨m1, _⟩ := lowerE_mono e c ce ve c1 h1
     -- what happens once the field's value (an i32) is known
     have field : ∀ t1 env1 nv, evalExpr fns n env e = ⟨t1, .ok (env1, .int nv)⟩ →
-        ∃ σ1, ExecC σ (ce ++ [.assignField (.t k) i ve]) t1 (.normal (σ1.set (.t k) (.recd (pre ++ [nv]))))
+        ∃ σ1, ExecC P σ (ce ++ [.assignField (.t k) i ve]) t1 (.normal (σ1.set (.t k) (.recd (pre ++ [nv]))))
           ∧ Agree env1 σ1 ∧ Frame c σ σ1 := by
       intro t1 env1 nv hel
       obtain ⟨σ1, t1', t2', hx1, hv1, rfl, ha1, hf1⟩ := (hE e env c ce ve c1 σ h1 ha).1 t1 env1 (.int nv) hel
       have hto : σ1 (.t k) = .recd pre := by rw [hf1 k hk, hσ]
-      have s1 : ExecS σ1 (.assignField (.t k) i ve) t2' (.normal (σ1.set (.t k) (.recd (pre ++ [nv])))) :=
+      have s1 : ExecS P σ1 (.assignField (.t k) i ve) t2' (.normal (σ1.set (.t k) (.recd (pre ++ [nv])))) :=
         .assignField hv1 (by simp [hto, setPayload, hlen])
       exact ⟨σ1, ExecC.append hx1 (ExecC.single s1), ha1, hf1⟩
     constructor
@@ -1098,7 +1172,7 @@ theorem simFields_step {fns n} (hE : SimE fns n) (hF : SimFields fns n) : SimFie
 
 theorem frame_of_tmps {c : Nat} {σ σ1 : Store} (h : ∀ k, σ1 (.t k) = σ (.t k)) : Frame c σ σ1 := fun k _ => h k
 
-theorem simChain_step {fns n} (hE : SimE fns n) (hB : SimBlock fns n) (hC : SimChain fns n) : SimChain fns (n + 1) := by
+theorem simChain_step {fns P n} (hE : SimE fns P n) (hB : SimBlock fns P n) (hC : SimChain fns P n) : SimChain fns P (n + 1) := by
   intro arms env sel ke tb idx c steps c' σ v ko cA codes cA' c0 hl hla ha hv hd hke hc hcA hko hko' hsel
   cases arms with
   | nil =>
@@ -1130,7 +1204,7 @@ theorem simChain_step {fns n} (hE : SimE fns n) (hB : SimBlock fns n) (hC : SimC
           refine ⟨0, σ1, [], cb ++ [.assign (.t ko) (.move xb)], σ2.set (.t ko) r', t1, .plain hx1, by simp, ?_, by simp,
             by simp, ha2.leave.set_tmp _ _, ?_⟩
           · simpa using ExecC.append hx2 (ExecC.assign1 (x := .t ko) (v := .move xb) (t := []) (val := r')
-              (by simp [evalValue, hv2]))
+              ((EvalV.pure (by simp [evalValue, hv2]))))
           · exact ((frame_of_tmps hk1).trans (hf2.mono hcA) (Nat.le_refl _)).trans (Frame.set_tmp _ _ hko) (Nat.le_refl _)
       · intro t w h
         simp only [evalArms, hm, if_true] at h
@@ -1196,7 +1270,7 @@ theorem simChain_step {fns n} (hE : SimE fns n) (hB : SimBlock fns n) (hC : SimC
                 by simp, ha3.leave.set_tmp _ _, ?_⟩
               · simpa using ExecG.guardTrue (a := idx) (rest := st) hx1 hx2 hv2
               · simpa using ExecC.append hx3 (ExecC.assign1 (x := .t ko) (v := .move xb) (t := []) (val := r')
-                  (by simp [evalValue, hv3]))
+                  ((EvalV.pure (by simp [evalValue, hv3]))))
               · exact (((frame_of_tmps hk1).trans (hf2.mono hc) (Nat.le_refl _)).trans (hf3.mono hcA) (Nat.le_refl _)).trans
                   (Frame.set_tmp _ _ hko) (Nat.le_refl _)
             | false =>
@@ -1257,7 +1331,7 @@ theorem simChain_step {fns n} (hE : SimE fns n) (hB : SimBlock fns n) (hC : SimC
         rcases IH.2 t w h with hg | ⟨a, σ1, t1, code, t2, hg, hcode, hx, ht⟩
         · exact Or.inl hg
         · exact Or.inr ⟨a + 1, σ1, t1, code, t2, by simpa [Nat.add_assoc, Nat.add_comm 1 a] using hg, by simpa using hcode, hx, ht⟩
-theorem simCtor_step {fns n} (hE : SimE fns n) (hK : SimCtor fns n) : SimCtor fns (n + 1) := by
+theorem simCtor_step {fns P n} (hE : SimE fns P n) (hK : SimCtor fns P n) : SimCtor fns P (n + 1) := by
   intro es env c code xs c' σ hl ha
   cases es with
   | nil =>
@@ -1307,7 +1381,7 @@ theorem simCtor_step {fns n} (hE : SimE fns n) (hK : SimCtor fns n) : SimCtor fn
           · simp [pure_eq, R.ok] at h4
         | _ => simp [R.stuck] at h2'
 
-theorem simSeq_step {fns n} (hE : SimE fns n) (hS : SimSeq fns n) : SimSeq fns (n + 1) := by
+theorem simSeq_step {fns P n} (hE : SimE fns P n) (hS : SimSeq fns P n) : SimSeq fns P (n + 1) := by
   intro b env c code x c' σ hl ha
   cases b with
   | nil =>
@@ -1316,7 +1390,7 @@ theorem simSeq_step {fns n} (hE : SimE fns n) (hS : SimSeq fns n) : SimSeq fns (
     · intro t env' v h
       simp [evalSeq, R.ok] at h
       obtain ⟨rfl, rfl, rfl⟩ := h
-      exact ⟨σ.set (.t c) .unit, ExecC.assign1 (by simp [evalValue]), by simp, ha.set_tmp _ _,
+      exact ⟨σ.set (.t c) .unit, ExecC.assign1 ((EvalV.pure (by simp [evalValue]))), by simp, ha.set_tmp _ _,
         Frame.set_tmp _ _ (Nat.le_refl _)⟩
     · intro t v h; simp [evalSeq, R.ok] at h
   | last e =>
@@ -1379,7 +1453,7 @@ theorem simSeq_step {fns n} (hE : SimE fns n) (hS : SimSeq fns n) : SimSeq fns (
         have := (hS rest _ _ cr xr c2 _ h2 ha1).2 t2 v h2'
         simpa [List.append_assoc] using ExecC.append hx1 this
 
-theorem simBlock_step {fns n} (hS : SimSeq fns n) : SimBlock fns (n + 1) := by
+theorem simBlock_step {fns P n} (hS : SimSeq fns P n) : SimBlock fns P (n + 1) := by
   intro b env c code x c' σ hl ha
   constructor
   · intro t env' v h
@@ -1395,8 +1469,8 @@ theorem simBlock_step {fns n} (hS : SimSeq fns n) : SimBlock fns (n + 1) := by
     · exact (hS b env c code x c' σ hl ha).2 t v h
     · simp [pure_eq, R.ok] at h2'
 
-theorem simWhile_step {fns n} (hE : SimE fns n) (hB : SimBlock fns n) (hW : SimWhile fns n) :
-    SimWhile fns (n + 1) := by
+theorem simWhile_step {fns P n} (hE : SimE fns P n) (hB : SimBlock fns P n) (hW : SimWhile fns P n) :
+    SimWhile fns P (n + 1) := by
   intro cnd b env c cc vc c1 cb xb c2 σ h1 h2 ha
   have ⟨m1, _⟩ := lowerE_mono cnd (c + 1) cc vc c1 h1
   have ⟨m2, _⟩ := lowerBlock_mono b c1 cb xb c2 h2
@@ -1441,9 +1515,9 @@ theorem simWhile_step {fns n} (hE : SimE fns n) (hB : SimBlock fns n) (hW : SimW
             simpa [List.append_assoc] using ExecS.whlStep hx1 (by simp) hx2 hx3
       | _ => simp [R.stuck] at h2'
 
-theorem sim_all (fns : List FnDef) :
-    ∀ n, SimE fns n ∧ SimArgs fns n ∧ SimSeq fns n ∧ SimBlock fns n ∧ SimWhile fns n ∧ SimFields fns n ∧ SimChain fns n
-      ∧ SimCtor fns n
+theorem sim_all (fns : List FnDef) (P : Prog) (hP : ProgOk fns P) :
+    ∀ n, SimE fns P n ∧ SimArgs fns P n ∧ SimSeq fns P n ∧ SimBlock fns P n ∧ SimWhile fns P n ∧ SimFields fns P n ∧ SimChain fns P n
+      ∧ SimCtor fns P n
   | 0 => by
     refine ⟨?_, ?_, ?_, ?_, ?_, ?_, ?_, ?_⟩
     · intro e env c code value c' σ _ _
@@ -1463,8 +1537,8 @@ theorem sim_all (fns : List FnDef) :
     · intro es env c code xs c' σ _ _
       exact ⟨fun t env' v h => by simp [evalInts, R.fuel] at h, fun t v h => by simp [evalInts, R.fuel] at h⟩
   | n + 1 => by
-    obtain ⟨hE, hA, hS, hB, hW, hF, hC, hK⟩ := sim_all fns n
-    exact ⟨simE_step hE hA hF hB hW hC hK, simArgs_step hE hA, simSeq_step hE hS, simBlock_step hS, simWhile_step hE hB hW,
+    obtain ⟨hE, hA, hS, hB, hW, hF, hC, hK⟩ := sim_all fns P hP n
+    exact ⟨simE_step hE hA hF hB hW hC hK hP, simArgs_step hE hA, simSeq_step hE hS, simBlock_step hS, simWhile_step hE hB hW,
       simFields_step hE hF, simChain_step hE hB hC, simCtor_step hE hK⟩
 
 
@@ -1474,9 +1548,10 @@ theorem bool_flip {k : Bool} {v : Val} (h1 : v = .bool k) (h2 : v = .bool (!k)) 
   rw [h1] at h2; cases k <;> simp at h2
 
 mutual
-theorem ExecS.det : ∀ {σ : Store} {s : Stm} {t t' : Trace} {o o' : Outcome},
-    ExecS σ s t o → ExecS σ s t' o' → t = t' ∧ o = o'
-  | _, _, _, _, _, _, .assign h, .assign h' => by rw [h] at h'; cases h'; exact ⟨rfl, rfl⟩
+theorem ExecS.det {P : Prog} : ∀ {σ : Store} {s : Stm} {t t' : Trace} {o o' : Outcome},
+    ExecS P σ s t o → ExecS P σ s t' o' → t = t' ∧ o = o'
+  | _, _, _, _, _, _, .assign h, .assign h' => by
+    obtain ⟨rfl, rfl⟩ := EvalV.det h h'; exact ⟨rfl, rfl⟩
   | _, _, _, _, _, _, .ret, .ret => ⟨rfl, rfl⟩
   | _, _, _, _, _, _, .iteThen _ h, .iteThen _ h' => ExecC.det h h'
   | _, _, _, _, _, _, .iteElse _ h, .iteElse _ h' => ExecC.det h h'
@@ -1521,7 +1596,7 @@ theorem ExecS.det : ∀ {σ : Store} {s : Stm} {t t' : Trace} {o o' : Outcome},
     obtain ⟨rfl, h⟩ := ExecS.det hr hr'; cases h; exact ⟨rfl, rfl⟩
   | _, _, _, _, _, _, .setDisc, .setDisc => ⟨rfl, rfl⟩
   | _, _, _, _, _, _, .assignField h p, .assignField h' p' => by
-    rw [h] at h'; cases h'; rw [p] at p'; cases p'; exact ⟨rfl, rfl⟩
+    obtain ⟨rfl, hv⟩ := EvalV.det h h'; cases hv; rw [p] at p'; cases p'; exact ⟨rfl, rfl⟩
   | _, _, _, _, _, _, .iteDThen _ h, .iteDThen _ h' => ExecC.det h h'
   | _, _, _, _, _, _, .iteDElse _ _ h, .iteDElse _ _ h' => ExecC.det h h'
   | _, _, _, _, _, _, .iteDThen e _, .iteDElse e' ne _ => by rw [e] at e'; cases e'; exact (ne rfl).elim
@@ -1540,8 +1615,19 @@ theorem ExecS.det : ∀ {σ : Store} {s : Stm} {t t' : Trace} {o o' : Outcome},
   | _, _, _, _, _, _, .mtchGuardRet e g, .mtchGuardRet e' g' => by
     rw [e] at e'; cases e'
     obtain ⟨rfl, h⟩ := ExecG.det g g'; cases h; exact ⟨rfl, rfl⟩
-theorem ExecG.det : ∀ {σ : Store} {st : List GStep} {t t' : Trace} {o o' : GOut},
-    ExecG σ st t o → ExecG σ st t' o' → t = t' ∧ o = o'
+termination_by structural _ _ _ _ _ _ h _ => h
+theorem EvalV.det {P : Prog} : ∀ {σ : Store} {v : Value} {t t' : Trace} {a a' : Val},
+    EvalV P σ v t a → EvalV P σ v t' a' → t = t' ∧ a = a'
+  | _, _, _, _, _, _, .pure h, .pure h' => by rw [h] at h'; cases h'; exact ⟨rfl, rfl⟩
+  | _, _, _, _, _, _, .pure h, .call _ _ _ => by simp [evalValue] at h
+  | _, _, _, _, _, _, .call _ _ _, .pure h' => by simp [evalValue] at h'
+  | _, _, _, _, _, _, .call hp hb hx, .call hp' hb' hx' => by
+    rw [hp] at hp'; cases hp'
+    rw [hb] at hb'; cases hb'
+    obtain ⟨rfl, h⟩ := ExecC.det hx hx'; cases h; exact ⟨rfl, rfl⟩
+termination_by structural _ _ _ _ _ _ h _ => h
+theorem ExecG.det {P : Prog} : ∀ {σ : Store} {st : List GStep} {t t' : Trace} {o o' : GOut},
+    ExecG P σ st t o → ExecG P σ st t' o' → t = t' ∧ o = o'
   | _, _, _, _, _, _, .plain b, .plain b' => by
     obtain ⟨rfl, h⟩ := ExecC.det b b'; cases h; exact ⟨rfl, rfl⟩
   | _, _, _, _, _, _, .guardTrue b g e, .guardTrue b' g' e' => by
@@ -1572,8 +1658,9 @@ theorem ExecG.det : ∀ {σ : Store} {st : List GStep} {t t' : Trace} {o o' : GO
   | _, _, _, _, _, _, .guardRet b g, .guardRet b' g' => by
     obtain ⟨rfl, h⟩ := ExecC.det b b'; cases h
     obtain ⟨rfl, h⟩ := ExecC.det g g'; cases h; exact ⟨rfl, rfl⟩
-theorem ExecC.det : ∀ {σ : Store} {c : Code} {t t' : Trace} {o o' : Outcome},
-    ExecC σ c t o → ExecC σ c t' o' → t = t' ∧ o = o'
+termination_by structural _ _ _ _ _ _ h _ => h
+theorem ExecC.det {P : Prog} : ∀ {σ : Store} {c : Code} {t t' : Trace} {o o' : Outcome},
+    ExecC P σ c t o → ExecC P σ c t' o' → t = t' ∧ o = o'
   | _, _, _, _, _, _, .nil, .nil => ⟨rfl, rfl⟩
   | _, _, _, _, _, _, .consRet h, .consRet h' => ExecS.det h h'
   | _, _, _, _, _, _, .consRet h, .cons h' _ => by
@@ -1583,6 +1670,21 @@ theorem ExecC.det : ∀ {σ : Store} {c : Code} {t t' : Trace} {o o' : Outcome},
   | _, _, _, _, _, _, .cons h hr, .cons h' hr' => by
     obtain ⟨rfl, h⟩ := ExecS.det h h'; cases h
     obtain ⟨rfl, h⟩ := ExecC.det hr hr'; exact ⟨rfl, h⟩
+termination_by structural _ _ _ _ _ _ h _ => h
 end
+
+/-- lowering every function gives a program that holds them all -/
+theorem lowerProg_ok : ∀ (fns : List FnDef) (P : Prog), lowerProg fns = some P → ProgOk fns P
+  | [], P, h => by intro f fd hf; simp at hf
+  | fd0 :: rest, P, h => by
+    simp [lowerProg, Option.bind_eq_some_iff] at h
+    obtain ⟨code, hc, more, hm, rfl⟩ := h
+    intro f fd hf
+    cases f with
+    | zero => simp at hf; subst hf; exact ⟨code, hc, by simp⟩
+    | succ f' =>
+      simp at hf
+      obtain ⟨code', hc', hp'⟩ := lowerProg_ok rest more hm f' fd hf
+      exact ⟨code', hc', by simpa using hp'⟩
 
 end RotoV.LowerS
